@@ -276,11 +276,16 @@ func runQueue(in input) vh.Result {
 func runShard(in input) vh.Result {
 	var rows []string
 	obs := []map[string]any{}
+	queues := map[int]*delivery.VerifPlanQueue{}
 	for _, o := range in.Ops {
-		if o.K != "sh" || o.Ev == nil || o.Shard <= 0 {
+		if o.K != "sh" || o.Ev == nil || o.Shard <= 0 || o.Shard > 100000 {
 			continue
 		}
-		q := delivery.VerifNewPlanQueue(1, o.Shard)
+		q := queues[o.Shard]
+		if q == nil {
+			q = delivery.VerifNewPlanQueue(1, o.Shard)
+			queues[o.Shard] = q
+		}
 		idx := q.ShardIndex(onlinedelivery.RecipientDeliveryPlan{Event: mkEvent(*o.Ev)})
 		rows = append(rows, "("+vh.N(uint64(o.Shard))+", "+vh.N(uint64(o.Ev.ChType))+", "+vh.HexS(o.Ev.ChID)+", "+vh.N(uint64(idx))+")")
 		if len(obs) < 8 {
